@@ -11,8 +11,8 @@ import (
 	"sync"
 
 	"github.com/brimdata/super/lake"
-	"github.com/brimdata/super/lake/journal"
 	lakeapi "github.com/brimdata/super/lake/api"
+	"github.com/brimdata/super/lake/journal"
 	"github.com/segmentio/ksuid"
 	"go.uber.org/zap"
 	. "zvh/hx"
@@ -345,6 +345,77 @@ func followUp(eng *MemEngine, tr *JournalTrace, w *world, after view, post view)
 
 func sameView(a, b view) bool { return a.String() == b.String() }
 
+// retryAndVectorRead: what a user does after a crash -- re-issue the interrupted
+// operation through a fresh handle (it may succeed or be refused), give every
+// object of main a vector copy, and read.  Every branch must then be readable
+// by a plain scan, and an aggregate the planner hands to the vector runtime
+// (sum over an integer field, parallelism 2, every object vectorized) must give
+// what the same aggregate gives over the plain scan.
+func retryAndVectorRead(eng *MemEngine, w *world, op crashOp) (problems []string) {
+	ctx := context.Background()
+	env, err := OpenLakeEnv(eng.View(nil))
+	if err != nil {
+		return []string{"reopen before retry: " + err.Error()}
+	}
+	retryErr := Safely(func() error { return op.run(env, w) })
+	v := observe(eng)
+	if v.openErr != "" {
+		return []string{fmt.Sprintf("after re-issuing %s (result: %v) the lake cannot be opened: %s", op.name, retryErr, v.openErr)}
+	}
+	for b, c := range v.contents {
+		if len(c) == 1 && strings.HasPrefix(c[0], "ERR:") {
+			problems = append(problems, fmt.Sprintf("after re-issuing %s (result: %v) branch %s is unreadable: %s", op.name, retryErr, b, c[0]))
+		}
+	}
+	main, ok := v.contents["p@main"]
+	if !ok || len(problems) > 0 {
+		return problems
+	}
+	env2, err := OpenLakeEnv(eng.View(nil))
+	if err != nil {
+		return append(problems, "reopen: "+err.Error())
+	}
+	quiet := NewResult("C17")
+	lr := &LakeRun{API: env2.API, Env: env2, PoolName: "p", PoolID: w.poolID, Res: quiet}
+	objs, err := lr.Objects("main")
+	if err != nil {
+		return append(problems, "objects of main: "+err.Error())
+	}
+	have, err := lr.Vectors("main")
+	if err != nil {
+		return append(problems, "vectors of main: "+err.Error())
+	}
+	var need []ksuid.KSUID
+	for _, o := range objs {
+		if !have[o.ID] {
+			need = append(need, o.ID)
+		}
+	}
+	if len(need) > 0 {
+		if _, err := env2.API.AddVectors(ctx, "p", "main", need, Msg()); err != nil {
+			return append(problems, fmt.Sprintf("after re-issuing %s (result: %v), vector add of the objects of main without a vector fails: %v", op.name, retryErr, err))
+		}
+	}
+	env3, err := OpenLakeEnv(eng.View(nil))
+	if err != nil {
+		return append(problems, "reopen: "+err.Error())
+	}
+	got, gerr := env3.Query("from p@main | sum(id)", 2)
+	plain, perr := env3.Query("from p@main", 1)
+	if perr != nil {
+		return append(problems, fmt.Sprintf("after re-issuing %s (result: %v) and vectorizing main, a plain scan fails: %v", op.name, retryErr, perr))
+	}
+	want, werr := RunQuery("sum(id)", strings.Join(plain, "\n"))
+	if werr != nil {
+		return problems
+	}
+	if gerr != nil || strings.Join(got, " ") != strings.Join(want, " ") {
+		problems = append(problems, fmt.Sprintf("after re-issuing %s (result: %v) and giving every object of main a vector, `from p@main | sum(id)` at parallelism 2 returns %v (err=%v); the same aggregate over the plain scan (%d values) gives %v", op.name, retryErr, got, gerr, len(plain), want))
+	}
+	_ = main
+	return problems
+}
+
 func crashCampaign(res *Result, fileMode bool, opFilter func(string) bool, sample func(n int) []int) error {
 	w, err := buildWorld(fileMode)
 	if err != nil {
@@ -434,6 +505,9 @@ func crashCampaign(res *Result, fileMode bool, opFilter func(string) bool, sampl
 			fail("followup-fails:"+op.name, p, "subsequent operations succeed", p)
 		}
 		out.traceCase = tc
+		for _, p := range retryAndVectorRead(eng, w, op) {
+			fail("retry-leaves-unusable:"+op.name, p, "after re-issuing the interrupted operation everything is readable, also through the vector path", p)
+		}
 		return
 	}
 	var wg sync.WaitGroup
